@@ -342,6 +342,20 @@ def r172(eng, rep, reach) -> None:
             dn = dotted(d.func if isinstance(d, ast.Call) else d) or ""
             if dn.split(".")[-1] in ("lru_cache", "cache", "cached_property"):
                 rep.violation("R17.2", f.file, f.qual, "@%s" % dn, "memoised function on a generate path: cached results survive into later generations of other schemas")
+    # lazily initialised attributes of a generator object (cache idiom): survive into the next generation
+    base = prog.cls("fcp.codegen.CodeGenerator")
+    for ci in prog.subclasses(base.qual):
+        for m in ci.methods.values():
+            if m.name == "__init__" or m.qual not in reach:
+                continue
+            for n in walk_local(m.node):
+                if isinstance(n, ast.If):
+                    tnames = {norm(x) for x in ast.walk(n.test) if isinstance(x, ast.Attribute) and isinstance(x.value, ast.Name) and x.value.id == "self"}
+                    for st in ast.walk(ast.Module(body=n.body, type_ignores=[])):
+                        if isinstance(st, (ast.Assign, ast.AnnAssign)):
+                            for t in (st.targets if isinstance(st, ast.Assign) else [st.target]):
+                                if norm(t) in tnames:
+                                    rep.violation("R17.2", m.file, m.qual, norm(st, 60), "the generator object caches %s across calls (initialised once, then reused): a second generation on the same object is computed from the first schema" % norm(t))
     # class-level mutable attributes on classes used on generate paths
     for ci in prog.classes.values():
         for st in ci.node.body:
